@@ -68,7 +68,7 @@ LineOK(e) ==
      \E t0 \in {Lx!Lex(e.in)}, t1 \in {Lx!Lex(e.out)} :
         /\ (LexOracle(e, t0, t1) \/ Reject(l, "oracle: V8 accepts what the TLA+ lexer rejects"))
         /\ \E gs \in {e.goals \o LexGoals(t0, t1)} : Judge(e, gs)
-  ELSE IF e.lang = "svg" /\ e.acc1 THEN
+  ELSE IF e.lang = "svg" /\ e.acc1 /\ (\E i \in DOMAIN e.goals : e.goals[i].g = "svg.path") THEN
      /\ (PathOracle(e) \/ Reject(l, "oracle: TLA+ and Go path recognisers disagree"))
      /\ \E gs \in {e.goals \o <<PathGoal(e)>>} : Judge(e, gs)
   ELSE Judge(e, e.goals)
